@@ -17,9 +17,15 @@ def pureE : X.Expr → Bool
   | .sub _ i => pureE i
   | _ => false
 
+/-- The system-call id `ConstProp` finds for a called name (`-1`: none, a user call). -/
+def sysOf (ρ : String → Option Word) (f : String) : Int :=
+  match ρ f with
+  | some w => w.toInt
+  | none => -1
+
 mutual
-/-- `ConstProp` on an expression without `val`-named system calls, given the constant each name
-    denotes (`lookupVal`). -/
+/-- `ConstProp` on an expression, given the constant each name denotes (`lookupVal`); a call through
+    the name of a constant is the system call with that number. -/
 def annotate (ρ : String → Option Word) : X.Expr → AExpr
   | .num v => .num v (some v)
   | .bool b => .bool b (some (Xcmp.b2w b))
@@ -32,8 +38,8 @@ def annotate (ρ : String → Option Word) : X.Expr → AExpr
        | _, _ => none)
   | .str bs => .str bs
   | .sub n i => .sub n (annotate ρ i)
-  | .call f args => .call (-1) f (annotateL ρ args)
-  | .syscall _ _ => .call (-1) "" []            -- outside the fragment
+  | .call f args => .call (sysOf ρ f) f (annotateL ρ args)
+  | .syscall id args => .call (sysIdOfNat id) "" (annotateL ρ args)
 def annotateL (ρ : String → Option Word) : List X.Expr → List AExpr
   | [] => []
   | e :: es => annotate ρ e :: annotateL ρ es
